@@ -72,25 +72,49 @@ prop('C17', level='proof',
      explanation=STEP_NOTE + 'Groups: step_HALT (empty assigns), execute (conditional assigns), dbg_reset, dbg_clearBreakpoints, dbg_isDone, dbg_getCurrentBreak.',
      not_decided='constructor; completeness of the site restore in clearBreakpoints is in the thorough tier', trusted=VM_TRUST + DBG_TRUST)
 
-prop('C08', level='proof', claim='wip', note='wip', explanation='wip')
 
-prop('C02', level='proof', claim='wip', note='wip', explanation='wip')
-prop('C04', level='proof', claim='wip', note='wip', explanation='wip')
+
+
+GEN_TRUST = ['the gen.cpp unit is the real text of gen.cpp after the logged normalisations N1-N6, N11, N13 (desugarings a C++20 compiler performs itself); Instruction factories are extracted from VM/src/instr.cpp',
+             'string literals carry an id fixed per literal text (N5); all other string content is not modelled (T4)']
+PARSE_TRUST = ['parser unit: std::vector<Token>::iterator is the index-based model iterator; N9 (new Node() -> model allocator), N10 (C linkage for the free descent functions), N15 (explicit constructor for the reference members of ParseState), N16 (pos->m -> (*pos).m), N17 (Token::Type::X -> Token::X)',
+               'the pre-state (token array ending in EOF, cursor, AST) is built by the C harness; Theo::token_string is an arbitrary-string stub',
+               'callee contracts are used at call sites (recursion through a second wrapper of the same contract); the textbook LL(1) argument joining the per-production contracts into "no error <=> sentence" is not machine-checked']
+
+prop('C08', level='proof',
+     claim='The two breakpoint tables are only changed together and by exact inverse deltas: GenState::breakpoint appends one site to code, one entry to line_info and the site to the list of the current position (a new entry when there is none); GenState::removeTopPotBreak removes exactly the top site from both tables (erasing the key only when its list becomes empty); GenState::advanceLine emits at most one site and none for the hidden standard-macro file; VM::setBreakPoint succeeds exactly for listed locations. The global invariant "tables are inverse" follows by induction over these deltas (meta-argument).',
+     note='getNextPos/getMarkPos are proved without bound. breakpoint/removeTopPotBreak/advanceLine/setBreakPoint are BOUNDED in the number of table entries (<= 8 quick, <= 24/16 thorough; contents, code size and site-list lengths symbolic): byte-granular access to symbolic-size arrays of 12/36-byte structs exhausts the SAT back end. Bounded groups are listed separately and not counted as discharged. "Every location is a line on which a token stands" is decided only as far as locations are copied from node positions (parser contracts, C04/C07).',
+     explanation='Contracts in contracts/gen_tbl.c on the real GenState member functions (gen unit = all of gen.cpp through the front end). Universal conclusions use unconstrained ghost indices (other line_info entry g_l, other potential_breaks entry g_o, list position g_s).',
+     not_decided='that no other code touches the tables (supported by a token scan only); scanner-assigned positions', trusted=GEN_TRUST)
+
+prop('C07', level='proof',
+     claim='Mechanisms only: a site is emitted exactly when generation moves to another line/file, never for __standards__ (advanceLine); labels resolve to the site just emitted (getMarkPos); END keywords are kept as NAME nodes made from the END token itself (matchmk contract: node carries the position of the token under the cursor); getCurrentBreak reports the table entry of the instruction just passed.',
+     note='The sequence of stops of a whole stepping run and the source-level values at each stop are NOT decided (needs the simulation argument of C01). advanceLine is bounded in the number of table entries (see C08).',
+     explanation='Groups gen_getMarkPos, genB_advanceLine, genB_breakpoint, parse_matchmk, parse_mk, parse_P, parse_S, dbg_getCurrentBreak, dbg_getActivations.',
+     not_decided='whole-run stepping sequence; getActivationVariables; popSymbols stack maps', trusted=GEN_TRUST + PARSE_TRUST)
+
+prop('C02', level='proof',
+     claim='Parser: every descent function (S, P, PORTS, OPORTS, ARGS, MARGS, MOREP, VALUE, VARGS, MVARGS, expected_end_or_semicolon) and ParseState::lookahead/match/matchmk and AST::mk are memory safe for every token array ending in EOF, never move the cursor past EOF or backwards, only grow the error list, return either no node or a freshly recorded node exactly as documented - with callees replaced by contracts, so every dereference of a callee result is checked against what the callee may return. Literal conversion (strToInt) reports a range error exactly for values >= 2^31-1.',
+     note='Not decided: termination of the recursion and work bounds, leak freedom beyond "every node is recorded in all_allocated_nodes", error locations, the scanner, macro extraction/application, Theo::parse/gen drivers, dispatch* null-safety (the historical PORTS defect was repaired by fix ffe592a). Three genuine defects were repaired (known_findings.txt).',
+     explanation='Contracts in contracts/parse.c; pre-state built by the harness; match\'s recovery loop and expected_end_or_semicolon\'s loop are closed by loop contracts.',
+     not_decided='scan, macro engine, gen_ast/gen drivers, termination', trusted=PARSE_TRUST + GEN_TRUST)
+
+prop('C04', level='proof',
+     claim='Parser half: match records an error exactly when the token kind differs and consumes exactly one matching token; each nonterminal function, selected by the lookahead it saw, records no error only if the tokens it consumed spell its production (VALUE, VARGS, MVARGS, PORTS, OPORTS, ARGS, MARGS, MOREP in full; P, S, expected_end_or_semicolon: no node without an error, stop tokens). Static rules: literal range (strToInt).',
+     note='With the textbook LL(1) theorem (not machine-checked) this yields "no parser error <=> sentence" for the productions under full contract. Production conformance of P and S (the statement forms) is only partially under contract; unknown program / arity / unknown mark rules are not under contract yet; macros and the scanner are excluded.',
+     explanation='Same groups as C02 plus gen_strToInt.',
+     not_decided='P/S full conformance, static rules in dispatchValue/popSymbols, trailing-input loop of Theo::parse', trusted=PARSE_TRUST + GEN_TRUST)
 
 HOOK_COMMITS = ['019397c']
 
 NOT_APPLICABLE = {
- 'C02': 'not yet built in this revision (planned: DESIGN.md section 5)',
- 'C04': 'not yet built in this revision (planned: DESIGN.md section 5)',
- 'C07': 'not yet built in this revision (planned: DESIGN.md section 5)',
- 'C08': 'not yet built in this revision (planned: DESIGN.md section 5)',
  'C09': 'match relation is delegated to LRParser<Accumulation,Token> (class template, std::function actions, lambdas) and selection/splicing live in closures inside apply_macros; none of it passes the CBMC C++ front end even after normalisation, and a hand-lifted copy would be a model (different technique family)',
  'C10': 'a statement about the characters of generated identifiers versus the scanner alphabet and a pass counter inside the same closure-laden function; string content is outside the container model (T4)',
  'C11': 'the bounded pass loop lives inside apply_macros behind lambdas/std::optional/std::min_element that the CBMC C++ front end rejects; only a hand-sliced copy (a model) would be verifiable',
  'C12': 'LR(1) conflict <=> not prefix-deterministic is a language-theoretic theorem over item-set fixpoints; no function contract states it without an inductive derivation spec, and the code is template/std::set<struct> based, outside the front end',
  'C13': 'recognises-exactly-the-grammar needs induction over derivations, which CBMC contracts cannot perform; code outside the C++ front end',
  'C14': 'the oracle is the regular-expression semantics of lexer.l against flex generated DFA tables; a contract can at most bound table indices, equivalence needs an independent regex construction (a model)',
- 'C15': 'not yet built in this revision (planned: DESIGN.md section 5)',
- 'C16': 'not yet built in this revision (planned: DESIGN.md section 5)',
- 'C18': 'not yet built in this revision (planned: DESIGN.md section 5)',
+ 'C15': 'scan.cpp interleaves its include logic with flex entry points (yylex, yy_scan_string, reentrant scanner state) whose behaviour would have to be assumed wholesale; not built in this revision',
+ 'C16': 'needs contracts on popSymbols/dispatchProgram/dispatchValue (program table written only after the body is generated); not built in this revision',
+ 'C18': 'thread schedules are outside CBMC contracts; the sequential half (no function under contract writes static storage) is implied by the assigns clauses but not claimed as a separate check in this revision',
 }
